@@ -256,8 +256,8 @@ def step (s : State) : Op → Result
   | .release c n => releaseName s c n
   | .getOwner c n => getNameOwner s c n
   | .listQueued c n => listQueuedOwners s c n
-  | .other _ => .ok (s, [])      -- frame: no other entry point of bus.py writes the tables (table obligation
-                                 -- `Gen.C13Codes.busNamesUsers`, stream `other-traffic`)
+  | .other _ => .ok (s, [])      -- frame: no other entry point of bus.py writes the tables (validated by the
+                                 -- other-traffic steps of the correspondence streams; translator advisory)
 
 /-- Run a history; the events of each step are kept apart.  Stops at the first Python exception. -/
 def run (s : State) : List Op → Except Err (State × List (List Event))
